@@ -759,6 +759,11 @@ def directed_personas(year, seed, n):
                                           'box_17_1': round(r.uniform(5, 60), 2), 'box_15_1': 'NC', 'belongs_to': r.choice(['both', 'both', 'spouse'])}],
                           n_div=1, divs=[{'box_1a': round(r.uniform(100, 1300), 2), 'box_1b': 0.0, 'box_2a': 0.0, 'box_4': 0.0, 'box_5': 0.0, 'box_7': 0.0,
                                           'box_16_1': round(r.uniform(5, 40), 2), 'box_14_1': 'NC', 'belongs_to': r.choice(['both', 'taxpayer'])}])
+        # ... and a pension statement with N.C. tax withheld on both of its state rows, an interest statement likewise
+        p.n_1099r = 1
+        p.f1099r = [{'box_1': 9000.0, 'box_2a': 9000.0, 'box_4': 0.0, 'ira': False, 'belongs_to': r.choice(['taxpayer', 'spouse']), 'box_14_1': round(r.uniform(10, 80), 2), 'box_14_1_state': 'NC',
+                     'box_14_2': round(r.uniform(10, 80), 2), 'box_14_2_state': 'NC'}]
+        p.ints[0].update({'box_17_2': round(r.uniform(3, 30), 2), 'box_15_2': 'NC'})
         out.append(('F8j', p))
         if year == 2021:
             # 2021 only: advance child tax credit payments above the credit for the qualifying children but below the total with the
@@ -769,6 +774,16 @@ def directed_personas(year, seed, n):
                 p.n_under6 = u6
                 p.advance_ctc = adv
                 out.append(('F1a', p))
+        # capital gain distributions without any qualified dividends (the worksheet is still the way to figure the tax)
+        st_ = r.choice(['S', 'MFJ', 'HOH'])
+        p = plain_persona(year, st_, round(r.uniform(40000, 90000), 2), key=f'dircgd:{seed}:{k}', deps_odc=1 if st_ == 'HOH' else 0, n_div=1,
+                          divs=[{'box_1a': round(r.uniform(100, 1400), 2), 'box_1b': 0.0, 'box_2a': round(r.uniform(500, 9000), 2), 'box_4': 0.0, 'box_5': 0.0, 'box_7': 0.0, 'box_16_1': 0.0}])
+        out.append(('F2c', p))
+        # joint return with very little taxable income and a foreign tax credit (Schedule 3) larger than the tax: credits floor the tax at zero
+        base_ = _stat.amount('standard_deduction', year, 'MFJ')
+        p = plain_persona(year, 'MFJ', [round(base_ + r.uniform(200, 2500), 2)], key=f'dirftc:{seed}:{k}', n_int=1,
+                          ints=[{'box_1': round(r.uniform(200, 900), 2), 'box_3': 0.0, 'box_4': 0.0, 'box_6': round(r.uniform(250, 590), 2), 'box_8': 0.0, 'box_2': 0.0}])
+        out.append(('F2f', p))
         # plain (fully taxable) IRA distributions of both spouses
         p = plain_persona(year, 'MFJ', [round(r.uniform(40000, 90000), 2), round(r.uniform(30000, 60000), 2)], key=f'dirira:{seed}:{k}')
         p.n_1099r = 2
